@@ -114,6 +114,25 @@ with_stubs!(le_64, #[kani::unwind(8)] pub fn c09n_twin_unk_vec_opt_64() { hostil
 #[kani::proof] #[kani::unwind(8)] pub fn c09t_nostub_vec_opt_max() { hostile_vec::<Option<u8>, 4>(u32::MAX as usize, true) }
 #[kani::proof] #[kani::unwind(8)] pub fn c09t_nostub_nested() { nested_inner::<4>(true) }
 
+// ---- chunk progress at a hostile count, reachable with 3 input bytes: element size 8192 => chunk_len = 2.
+// A claimed count of 1000 must never make a reservation follow the count: after the first chunk (2 elements, 16 KiB) has
+// decoded completely the next reservation is again at most one chunk (capacity 4 => 32 KiB held), never (count-2) x size.
+pub struct Pad8k(pub [u8; 8191]);
+impl Default for Pad8k { fn default() -> Self { Pad8k([0; 8191]) } }
+#[derive(Decode)]
+pub struct Big8k { pub x: u8, #[codec(skip)] pub pad: Pad8k }
+fn chunk_progress<const L: usize>(count: usize, unk: bool) {
+	let bytes: [u8; L] = kani::any();
+	let len: usize = kani::any();
+	kani::assume(len <= L);
+	let r = if unk { parity_scale_codec::decode_vec_with_len::<Big8k, _>(&mut Unk(&bytes[..len]), count) } else { parity_scale_codec::decode_vec_with_len::<Big8k, _>(&mut &bytes[..len], count) };
+	assert!(r.is_err(), "a count promising more data than is present was accepted");
+	core::mem::forget(r);
+}
+with_stubs!(le_32k, #[kani::unwind(6)] pub fn c09q_chunk_progress_unk_1000() { chunk_progress::<3>(1000, true) });
+with_stubs!(le_32k, #[kani::unwind(6)] pub fn c09q_chunk_progress_slice_max() { chunk_progress::<3>(u32::MAX as usize, false) });
+with_stubs!(le_48k, #[kani::unwind(8)] pub fn c09t_chunk_progress_unk_5bytes() { chunk_progress::<5>(1 << 20, true) });
+
 // ---- the recordable finding: element types with a zero-length encoding but non-zero size
 pub struct Pad(pub [u64; 1024]); // 8 KiB
 impl Default for Pad { fn default() -> Self { Pad([0; 1024]) } }
